@@ -11,8 +11,14 @@ all vectors of a call have the same dimension.
 -/
 import SharkVerif.Lemmas.FastSort
 import SharkVerif.Lemmas.Hypervolume
+import SharkVerif.Lemmas.HV3D
+import SharkVerif.Lemmas.Contrib
+import SharkVerif.Model.Contrib3D
+import SharkVerif.Lemmas.DCFront
+import SharkVerif.Lemmas.RatLift
+import SharkVerif.Lemmas.Subset2D
 namespace SharkVerif.C13
-open SharkVerif.Pareto SharkVerif.HV
+open SharkVerif.Pareto SharkVerif.HV SharkVerif.DC
 
 /-! ## Dominance -/
 
@@ -226,5 +232,268 @@ theorem hvWfg_eq_spec (S : List Pt) (r : Pt) (hS : ∀ p ∈ S, leAll p r = true
 
 example : (∀ p ∈ [[1, 1, 1], [0, 2, 2], [1, 1, 1], [2, 0, 3]], leAll p [3, 3, 3] = true) ∧
     hvSpec [[1, 1, 1], [0, 2, 2], [1, 1, 1], [2, 0, 3]] [3, 3, 3] = 9 := by decide
+
+/-! ## HypervolumeCalculator3D (sweep over the third objective with a 2-D staircase)
+
+Model: `Model/HV3D.lean` (`step3` is one iteration of the C++ loop on the `std::map` front, `area`, `volume`,
+`prev_x2`).  Proof: `Lemmas/HV3D.lean` (loop invariant `Inv`: the front is the staircase of the processed points,
+`area` its 2-D cell count, `volume` the number of dominated cells below `prev`). -/
+
+/-- **C13 (3-D sweep)**: on every list ordered by the third coordinate — ties in any order, so for every outcome
+of the unstable `std::sort` — of points strictly inside the reference box, the sweep of `HypervolumeCalculator3D`
+(incl. the branches `right == end`, equal first coordinate, removal of dominated front entries) returns the
+dominated hypervolume.  Duplicates and dominated points allowed. -/
+theorem hv3d_sorted_eq_spec (L : List Pt) (r : Pt) (hsort : L.Pairwise (fun a b => pz a ≤ pz b))
+    (hL : ∀ p ∈ L, p.length = 3) (hr : r.length = 3) (hin : ∀ p ∈ L, inside3 r p = true) :
+    hv3dSorted L r = (hvSpec L r : Int) :=
+  hv3dSorted_eq_spec hsort hL hr hin
+
+/-- **C13 (HypervolumeCalculator3D::operator())**: for every finite list of 3-D points that weakly dominate the
+reference point (points on the boundary of the box included: the entry filter removes exactly the points without
+volume) the returned value is the dominated hypervolume. -/
+theorem hv3d_eq_spec (S : List Pt) (r : Pt) (hS : ∀ p ∈ S, p.length = 3) (hr : r.length = 3)
+    (hle : ∀ p ∈ S, leAll p r = true) : hv3d S r = (hvSpec S r : Int) :=
+  HV.hv3d_eq_spec hS hr hle
+
+/-- non-vacuity: duplicates, equal first coordinates, a dominated point, a point on the boundary of the box -/
+example : (∀ p ∈ [[1, 2, 1], [1, 1, 2], [0, 3, 3], [2, 0, 2], [1, 1, 2], [3, 0, 0]], leAll p [3, 4, 4] = true ∧ p.length = 3) ∧
+    hvSpec [[1, 2, 1], [1, 1, 2], [0, 3, 3], [2, 0, 2], [1, 1, 2], [3, 0, 0]] [3, 4, 4] = 19 := by decide
+
+/-! ## The front end `HypervolumeCalculator::operator()` -/
+
+/-- **C13 (dimension switch of the hypervolume front end)**: in 2 objectives (2-D sweep), 3 objectives (3-D sweep)
+and 5 or more objectives (WFG) the value returned by the modelled `HypervolumeCalculator` is the dominated
+hypervolume, for every finite list of points weakly dominating the reference point.
+`_partial`: 4 objectives dispatch to the HOY recursion, whose model (`Model/HOY.lean`) is tied to the C++ and to
+`hvSpec` by the exact correspondence and the cell-count oracle only — no theorem `hvHoy = hvSpec` yet. -/
+theorem hvDisp_eq_spec_partial (S : List Pt) (r : Pt) (hS : ∀ p ∈ S, p.length = r.length)
+    (hle : ∀ p ∈ S, leAll p r = true) (h4 : r.length ≠ 4) : hvDisp S r = (hvSpec S r : Int) := by
+  unfold hvDisp
+  by_cases he : S.isEmpty = true
+  · have : S = [] := List.isEmpty_iff.mp he
+    subst this; simp [hvSpec_nil]
+  · rw [if_neg he]
+    split
+    · next h => exact HV.hv2d_eq_spec (fun p hp => (hS p hp).trans h) h hle
+    · next h => exact HV.hv3d_eq_spec (fun p hp => (hS p hp).trans h) h hle
+    · next h => exact absurd h h4
+    · exact HV.hvWfg_eq_spec S r hle
+
+example : (∀ p ∈ [[1, 2, 1], [1, 1, 2], [0, 3, 3]], List.length (α := Int) p = [3, 4, 4].length ∧ leAll p [3, 4, 4] = true) ∧
+    [(3 : Int), 4, 4].length ≠ 4 ∧ hvSpec [[1, 2, 1], [1, 1, 2], [0, 3, 3]] [3, 4, 4] = 17 := by decide
+
+/-! ## Hypervolume contributions, least and greatest contributor
+
+`contribSpec S r i = hvSpec S r − hvSpec (S without its i-th entry) r` is the hypervolume lost by removing point `i`. -/
+
+/-- **C13 (selection of the k least / greatest contributors)**: what `std::sort` + truncation (`smallestOf`) and
+`std::sort` + truncation + `std::reverse` (`largestOf`) return: `min k n` pairs in ascending (descending) order of
+the key, a sub-multiset of the computed pairs, every reported key ≤ (≥) every unreported key — for the merge sort of the
+model; `take_sorted_spec`/`drop_sorted_spec` in `Lemmas/Contrib.lean` give the same for **every** key-sorted
+permutation, i.e. every outcome of the unstable `std::sort`/heap selection. -/
+theorem k_smallest_k_largest_spec (cs : List KV) (k : Nat) :
+    ((smallestOf cs k).length = min k cs.length ∧ (smallestOf cs k).Pairwise (fun a b => a.1 ≤ b.1) ∧
+      ∃ rest, (smallestOf cs k ++ rest).Perm cs ∧ ∀ a ∈ smallestOf cs k, ∀ b ∈ rest, a.1 ≤ b.1) ∧
+    ((largestOf cs k).length = min k cs.length ∧ (largestOf cs k).Pairwise (fun a b => b.1 ≤ a.1) ∧
+      ∃ rest, (largestOf cs k ++ rest).Perm cs ∧ ∀ a ∈ largestOf cs k, ∀ b ∈ rest, b.1 ≤ a.1) :=
+  ⟨smallestOf_spec cs k, largestOf_spec cs k⟩
+
+/-- the same for every outcome of an unstable sort: `L` is any key-sorted permutation of the computed pairs -/
+theorem k_smallest_any_sort (cs L : List KV) (hp : L.Perm cs) (hs : L.Pairwise (fun a b => a.1 ≤ b.1)) (k : Nat) :
+    (L.take k).length = min k cs.length ∧ (L.take k).Pairwise (fun a b => a.1 ≤ b.1) ∧
+      ∃ rest, (L.take k ++ rest).Perm cs ∧ ∀ a ∈ L.take k, ∀ b ∈ rest, a.1 ≤ b.1 :=
+  take_sorted_spec hp hs k
+
+/-- **C13 (HypervolumeContribution2D)**: for every mutually non-dominated 2-D set (duplicates allowed) weakly
+dominating the reference point, and for **every** outcome `Z` of the lexicographic `std::sort`, the sentinel-extended
+front yields one pair per point and the key of the pair of point `i` is the hypervolume lost by removing `i`. -/
+theorem contribution2d_eq_spec (S : List Pt) (r : Pt) (hS : ∀ p ∈ S, p.length = 2) (hr : r.length = 2)
+    (hle : ∀ p ∈ S, leAll p r = true) (hnd : ∀ p ∈ S, ∀ q ∈ S, dominates p q = false)
+    (Z : List (Pt × Nat)) (hperm : Z.Perm S.zipIdx) (hsort : Z.Pairwise fun a b => lexLe a b = true) :
+    ((contribs2dGo (px r) (py r) Z).map (·.2)).Perm (List.range S.length) ∧
+    ∀ c ∈ contribs2dGo (px r) (py r) Z, c.1 = contribSpec S r c.2 :=
+  contribs2dGo_eq_spec hS hr hle hnd Z hperm hsort
+
+/-- **C13 (least / greatest contributor in 2-D)**: `smallest(points, 1, ref)` reports `(contribution, index)` of a
+point whose contribution is minimal, `largest(points, 1, ref)` of one whose contribution is maximal, and the reported
+contribution is the hypervolume lost by removing that point. -/
+theorem contribution2d_least_greatest (S : List Pt) (r : Pt) (hne : S ≠ []) (hS : ∀ p ∈ S, p.length = 2)
+    (hr : r.length = 2) (hle : ∀ p ∈ S, leAll p r = true) (hnd : ∀ p ∈ S, ∀ q ∈ S, dominates p q = false) :
+    (∃ i, i < S.length ∧ smallest2d S 1 r = [(contribSpec S r i, i)] ∧ ∀ j, j < S.length → contribSpec S r i ≤ contribSpec S r j) ∧
+    (∃ i, i < S.length ∧ largest2d S 1 r = [(contribSpec S r i, i)] ∧ ∀ j, j < S.length → contribSpec S r j ≤ contribSpec S r i) :=
+  ⟨smallest2d_least_contributor hne hS hr hle hnd, largest2d_greatest_contributor hne hS hr hle hnd⟩
+
+/-- the hypothesis "mutually non-dominated" of the 2-D contribution theorems cannot be dropped (it is the
+precondition in the property text): with a dominated point the routine reports a negative "contribution" -/
+theorem contribution2d_needs_nondominated :
+    ∃ (S : List Pt) (r : Pt), (∀ p ∈ S, p.length = 2) ∧ r.length = 2 ∧ (∀ p ∈ S, leAll p r = true) ∧
+      ¬ ∀ c ∈ contribs2d S r, c.1 = contribSpec S r c.2 :=
+  contribs2d_needs_nondominated
+
+example : (∀ p ∈ [[0, 3], [1, 2], [1, 2], [3, 0]], ∀ q ∈ [[0, 3], [1, 2], [1, 2], [3, 0]], dominates p q = false) ∧
+    (List.range 4).map (contribSpec [[0, 3], [1, 2], [1, 2], [3, 0]] [4, 4]) = [1, 0, 0, 2] := by decide
+
+/-- **C13 (HypervolumeContributionMD)**: with a rank routine that returns the definition ranks and a hypervolume
+routine that returns the dominated hypervolume on the restricted sets, the pair computed for point `i`
+(box volume minus hypervolume of the other points clipped to the box and compacted to rank 1 by the swap loop) is
+`(hypervolume lost by removing i, i)` — for **every** finite set weakly dominating the reference point, dominated points
+and duplicates included (no non-domination hypothesis is needed for this algorithm). -/
+theorem contributionMD_eq_spec (rk : List Pt → List Nat) (hv : List Pt → Pt → Int) (m : Nat)
+    (S : List Pt) (r : Pt) (hS : ∀ p ∈ S, p.length = m) (hr : r.length = m) (hle : ∀ p ∈ S, leAll p r = true)
+    (hrk : ∀ Q, (∀ q ∈ Q, q.length = m) → rk Q = Q.map (rankSpec Q))
+    (hhv : ∀ Q, (∀ q ∈ Q, q.length = m) → (∀ q ∈ Q, leAll q r = true) → hv Q r = (hvSpec Q r : Int)) :
+    contribsMD rk hv S r = (List.range S.length).map fun i => (contribSpec S r i, i) :=
+  contribsMD_eq_spec rk hv m S r hS hr hle hrk hhv
+
+/-- … and its least / greatest contributor -/
+theorem contributionMD_least_greatest (rk : List Pt → List Nat) (hv : List Pt → Pt → Int) (m : Nat)
+    (S : List Pt) (r : Pt) (hne : S ≠ []) (hS : ∀ p ∈ S, p.length = m) (hr : r.length = m)
+    (hle : ∀ p ∈ S, leAll p r = true)
+    (hrk : ∀ Q, (∀ q ∈ Q, q.length = m) → rk Q = Q.map (rankSpec Q))
+    (hhv : ∀ Q, (∀ q ∈ Q, q.length = m) → (∀ q ∈ Q, leAll q r = true) → hv Q r = (hvSpec Q r : Int)) :
+    (∃ i, i < S.length ∧ smallestMD rk hv S 1 r = [(contribSpec S r i, i)] ∧ ∀ j, j < S.length → contribSpec S r i ≤ contribSpec S r j) ∧
+    (∃ i, i < S.length ∧ largestMD rk hv S 1 r = [(contribSpec S r i, i)] ∧ ∀ j, j < S.length → contribSpec S r j ≤ contribSpec S r i) :=
+  ⟨smallestMD_least_contributor rk hv m S r hne hS hr hle hrk hhv, largestMD_greatest_contributor rk hv m S r hne hS hr hle hrk hhv⟩
+
+/-- the hypotheses on `rk` and `hv` are satisfiable by modelled Shark routines: `fastNonDominatedSort` and WFG -/
+theorem contributionMD_fast_wfg (m : Nat) (S : List Pt) (r : Pt) (hS : ∀ p ∈ S, p.length = m)
+    (hr : r.length = m) (hle : ∀ p ∈ S, leAll p r = true) :
+    contribsMD fastSort hvWfg S r = (List.range S.length).map fun i => (contribSpec S r i, i) :=
+  contribsMD_fastSort_wfg m S r hS hr hle
+
+example : (List.range 3).map (contribSpec [[1, 2, 3], [2, 1, 3], [3, 3, 1]] [4, 4, 4]) = [2, 2, 2] := by decide
+
+/-! ## The divide-and-conquer sort and the front end `nonDominatedSort`
+
+Model: `Model/DCSort.lean` (`sweepA`, `sweepB`, `median2`, `splitA`, `splitB`, `helperA`, `helperB`, `dcSort`, `nds`:
+one definition per C++ member function).  Proof: `Lemmas/DCSweep.lean` (the two sweeps and the base cases against
+their specifications `ASpec`/`BSpec`), `Lemmas/DCSort.lean` (splits, recursion by induction on the depth budget),
+`Lemmas/DCFront.lean` (sort/unique/lower_bound front end). -/
+
+/-- **C13 (two-objective sweep `sweepA`)**: on index lists ordered lexicographically by the first two objectives
+(distinct projections) the sweep assigns `max(old front, 1 + highest final front of a 2-objective dominator in S)`. -/
+theorem dc_sweepA_spec (U : Array Pt) (S : List Nat) (frt : Frt)
+    (hlex : S.Pairwise (lexLt2 U)) (hS : ∀ s ∈ S, s < frt.size ∧ 1 ≤ fr frt s) :
+    ASpec U 2 S frt (sweepA U S frt) :=
+  sweepA_ASpec U S frt hlex hS
+
+/-- **C13 (divide-and-conquer sort, recursion)**: the front numbers computed by `ndHelperA` on the lexicographically
+sorted distinct points are the definition ranks — for every dimension `m ≥ 2` and every number of points; the depth
+budget `dcFuel` of the model is sufficient (the C++ recursion terminates in the same state). -/
+theorem dc_fronts_eq_rankSpec (U : List Pt) (m : Nat) (hm : 2 ≤ m) (hd : ∀ p ∈ U, p.length = m)
+    (hsorted : U.Pairwise (fun a b => lexLt a b = true)) :
+    ∀ i, i < U.length → fr (dcFronts U m) i = rankSpec U (U.getD i []) :=
+  dcFronts_eq_rankSpec U m hm hd hsorted
+
+/-- **C13 (BaseDCNonDominatedSort::operator())**: for every list of points of one dimension `m ≥ 2` — any size,
+duplicates, ties in single coordinates, dominated and collinear points — the modelled divide-and-conquer sort
+assigns to the `i`-th point the rank of the definition. -/
+theorem dcSort_eq_rankSpec (pts : List Pt) (m : Nat) (hm : 2 ≤ m) (hd : ∀ p ∈ pts, p.length = m) :
+    dcSort pts = pts.map (rankSpec pts) :=
+  DC.dcSort_eq_rankSpec pts m hm hd
+
+/-- **C13 (nonDominatedSort, "whichever internal algorithm is selected")**: whatever the size/dimension switch
+`m == 2 || n > 5000 || log(n)/log(3) < m + 1` decides, the ranks are those of the definition. -/
+theorem nds_eq_rankSpec (pts : List Pt) (m : Nat) (hm : 2 ≤ m) (hd : ∀ p ∈ pts, p.length = m) :
+    nds pts = pts.map (rankSpec pts) :=
+  DC.nds_eq_rankSpec pts m hm hd
+
+/-- `2 ≤ m` excludes only the one-objective case, which is outside the property (2 to 6 objectives): there the
+recursion of `ndHelperA` would reach `k - 1 = 0` -/
+example : (∀ p ∈ [[1, 1, 1], [1, 1, 2], [0, 2, 2], [1, 1, 1], [2, 2, 2]], List.length (α := Int) p = 3) ∧ 2 ≤ 3 := by decide
+
+/-! ## HypervolumeContributionMD as instantiated by the library (`nonDominatedSort` + `HypervolumeCalculator`) -/
+
+/-- **C13 (HypervolumeContributionMD, end to end)**: with the modelled `nonDominatedSort` and the modelled
+`HypervolumeCalculator` front end, the computed pairs are `(hypervolume lost by removing i, i)` for every finite
+set weakly dominating the reference point (`_partial`: not for 4 objectives, where the front end calls HOY). -/
+theorem contributionMD_library_eq_spec_partial (m : Nat) (S : List Pt) (r : Pt) (hm : 2 ≤ m) (h4 : m ≠ 4)
+    (hS : ∀ p ∈ S, p.length = m) (hr : r.length = m) (hle : ∀ p ∈ S, leAll p r = true) :
+    contribsMD nds hvDisp S r = (List.range S.length).map fun i => (contribSpec S r i, i) :=
+  contribsMD_eq_spec nds hvDisp m S r hS hr hle (fun Q hQ => DC.nds_eq_rankSpec Q m hm hQ)
+    (fun Q hQ hQr => hvDisp_eq_spec_partial Q r (fun p hp => (hQ p hp).trans hr.symm) hQr (by rw [hr]; exact h4))
+
+/-! ## Rational coordinates
+
+`Lemmas/Scale.lean`: every order-only notion (dominance, ranks, the sorts) is invariant under scaling by a positive
+integer and under translation; `hvSpec` is translation invariant and homogeneous of degree `m`.  `Lemmas/RatLift.lean`:
+for points with rational coordinates, `hvQ`/`rankQ` (computed with a common denominator) do not depend on the
+denominator chosen, agree with `hvSpec`/`rankSpec` on integer points, and `rankQ` satisfies the rank definition for
+the rational dominance relation. -/
+
+/-- `hvSpec` is homogeneous of degree `m` and translation invariant (all inputs, no hypotheses on dimensions for scaling) -/
+theorem hvSpec_scale_shift (d : Int) (hd : 0 < d) (t : Pt) (S : List Pt) (r : Pt) :
+    hvSpec (S.map (scalePt d)) (scalePt d r) = d.toNat ^ r.length * hvSpec S r ∧
+    ((∀ p ∈ S, p.length = t.length) → r.length = t.length → hvSpec (S.map (shiftPt t)) (shiftPt t r) = hvSpec S r) :=
+  ⟨hvSpec_scale hd S r, hvSpec_shift t S r⟩
+
+/-- the hypervolume of rational points is well defined: any two common denominators give the same value -/
+theorem hvQ_well_defined (d d' : Nat) (hd : 0 < d) (hd' : 0 < d') (S : List QPt) (r : QPt)
+    (hS : ∀ p ∈ S, Clears d p) (hr : Clears d r) (hS' : ∀ p ∈ S, Clears d' p) (hr' : Clears d' r) :
+    hvSpecQ d S r = hvSpecQ d' S r ∧ hvQ S r = hvSpecQ d S r :=
+  ⟨hvSpecQ_indep hd hd' S r hS hr hS' hr', hvQ_eq hd S r hS hr⟩
+
+/-- **C13 lifted to rational coordinates (sorting)**: run on the integer points obtained by multiplying with any
+common denominator `d`, the modelled `nonDominatedSort` returns the ranks `rankQ` of the rational points, and `rankQ`
+is one plus the highest rank among the rational dominators. -/
+theorem nds_rational (d : Nat) (hd : 0 < d) (m : Nat) (hm : 2 ≤ m) (S : List QPt)
+    (hS : ∀ p ∈ S, Clears d p) (hdim : ∀ p ∈ S, p.length = m) :
+    nds (S.map (toIntPt d)) = S.map (rankQ S) ∧
+    ∀ p, rankQ S p = 1 + ((S.filter fun q => dominatesQ q p).map (rankQ S)).foldl max 0 := by
+  refine ⟨?_, rankQ_spec S⟩
+  rw [DC.nds_eq_rankSpec (S.map (toIntPt d)) m hm (by
+    intro p hp; obtain ⟨q, hq, rfl⟩ := List.mem_map.mp hp; simpa [toIntPt] using hdim q hq)]
+  rw [List.map_map]
+  apply List.map_congr_left
+  intro p hp
+  rw [rankQ_eq hd S p hS (hS p hp)]; rfl
+
+/-! ## HypervolumeSubsetSelection2D
+
+Model: `Model/Subset2D.lean`.  Proof: `Lemmas/Subset2DEnv.lean` (the deque of `upperEnvelope` is the upper convex hull
+of the lines inserted so far; its front is the maximum at the current abscissa), `Lemmas/Subset2D.lean` (invariant of
+the dynamic programme, back-tracking, fill-up, `createFront`). -/
+
+open SharkVerif.SSP in
+/-- **C13 (upper envelope)**: for lines with strictly increasing slopes queried at non-decreasing abscissae the deque
+algorithm returns, at every position `i`, the maximum over `j ≤ i` of `f_j(x_i)`, together with an index attaining it. -/
+theorem ssp_upperEnvelope_eq_max (fs : List (LF × Int))
+    (hsorted : fs.Pairwise (fun u v => u.2 ≤ v.2 ∧ u.1.a < v.1.a)) :
+    (envGo [] fs).map (·.1) = envNaive fs :=
+  (upperEnvelope_eq_max fs hsorted).1
+
+open SharkVerif.SSP in
+/-- **C13 (the dynamic programme is optimal)**: on a front (first objective strictly increasing, second strictly
+decreasing, reference point at the origin) `hypSSP` marks exactly `k` distinct positions and no sub-list of at most
+`k` front points has a larger dominated hypervolume. -/
+theorem ssp_hypSSP_optimal (F : List P2) (hF : IsFront F) (k : Nat) (hk : 1 ≤ k) (hkn : k ≤ F.length) :
+    (hypSSP F k).Nodup ∧ (hypSSP F k).length = k ∧ (∀ i ∈ hypSSP F k, i < F.length) ∧
+    ∀ T : List P2, T.Sublist F → T.length ≤ k →
+      hvSpec (T.map P2.pt) [0, 0] ≤ hvSpec ((hypSSP F k).map (ptOf F)) [0, 0] :=
+  hypSSP_optimal hF hk hkn
+
+open SharkVerif.SSP in
+/-- **C13 (two-dimensional subset selection returns a subset of maximal hypervolume)**, operator level, with the
+intended lexicographic comparator: for every finite 2-D set weakly dominating the reference point (dominated points,
+duplicates, equal coordinates, points on the boundary of the box included) and `1 ≤ k ≤` size of the front, exactly
+`k` flags are set and the selected points have the largest hypervolume of all `k`-element sub-lists. -/
+theorem ssp_select_optimal (S : List Pt) (r : Pt) (k : Nat) (hS : ∀ p ∈ S, p.length = 2) (hr : r.length = 2)
+    (hle : ∀ p ∈ S, leAll p r = true) (hk : 1 ≤ k) (hkF : k ≤ (createFrontWith ptLtFixed S r).length) :
+    (selectWith ptLtFixed S k r).count true = k ∧
+    hvSpec (selectedWith ptLtFixed S k r) r = bestSubsetHv S k r :=
+  ⟨(select_optimal hS hr hle hk hkF).2.1, select_eq_bestSubsetHv hS hr hle hk hkF⟩
+
+open SharkVerif.SSP in
+/-- … and for the operator **as written in the C++** (comparator regenerated from the source) on inputs with pairwise
+distinct first coordinates.  `_partial`: with equal first coordinates the comparator of the C++ (`f2 < rhs.f1`) is
+not a strict weak order — finding C13-SSP-LEXLESS, 17 such points make `std::sort` read out of bounds — so no
+statement about `std::sort` is possible there; the theorem above is what holds after the one-token repair. -/
+theorem ssp_select_optimal_partial (S : List Pt) (r : Pt) (k : Nat) (hS : ∀ p ∈ S, p.length = 2) (hr : r.length = 2)
+    (hle : ∀ p ∈ S, leAll p r = true) (hd : S.Pairwise (fun p q => px p ≠ px q))
+    (hk : 1 ≤ k) (hkF : k ≤ (createFront S r).length) :
+    hvSpec (SharkVerif.SSP.selected S k r) r = bestSubsetHv S k r :=
+  selected_eq_bestSubsetHv_distinct hS hr hle hd hk hkF
+
+example : SharkVerif.SSP.IsFront [⟨-5, -1, 0⟩, ⟨-3, -2, 1⟩, ⟨-1, -4, 2⟩] := ⟨by decide, by decide⟩
 
 end SharkVerif.C13
